@@ -146,6 +146,30 @@ def _run(prop, tier, seed, nshards, n, deadline, jobs, work, a, t0):
     out = os.path.join(work, "witness.json")
     outs["witness"] = out
     specs.insert(0, ("witness", (lambda out=out, cf=cf: spawn(prop, tier, seed, 9999, nshards, 0, deadline, out, cases=cf))))
+  # W-repotests (thorough tier): the repository's own test modules under the quiescent-point monitor plugin
+  if tier == "thorough" and not os.environ.get("VERIF_NO_REPOTESTS"):
+    repo = os.environ.get("VERIF_REPO", "/repo")
+    for module in registry.REPOTESTS.get(prop, []):
+      out = os.path.join(work, "repotests_%s.json" % module.replace(".py", ""))
+      label = "repotests:" + module
+      outs[label] = out
+
+      def fac(out=out, module=module):
+        env = dict(os.environ, TFLV_PROP=prop, TFLV_OUT=out)
+        log = open(out + ".log", "w")
+        p = subprocess.Popen([sys.executable, "-B", "-m", "pytest", "-q", "-p", "no:cacheprovider", "-p", "no:xdist", "-p", "tflv.repotests_plugin",
+                              os.path.join("tensorflow_lattice", "python", module)], cwd=repo, env=env, stdout=log, stderr=subprocess.STDOUT)
+
+        class _P(object):        # test failures are irrelevant: only the monitor's result file counts
+          def poll(self_inner):
+            rc = p.poll()
+            return None if rc is None else 0
+          def kill(self_inner):
+            p.kill()
+          def wait(self_inner):
+            p.wait()
+        return _P()
+      specs.append((label, fac))
   done = run_pool(jobs, specs, hard_timeout=deadline * 1.5 + 120)
 
   merged = {
